@@ -17,6 +17,17 @@ def kf_match(kf, pid, ob_id, site_text=""):
     return None
 
 
+import fnmatch
+
+
+def owned_elsewhere(props, pid, ob_id):
+    """An obligation matching an `owners` pattern counts only for the properties listed there."""
+    for pat, owners in props.get("owners", {}).items():
+        if fnmatch.fnmatch(ob_id, pat):
+            return pid not in owners
+    return False
+
+
 def decide(pid, props, tier, seed, run_unit, known):
     t0 = time.time()
     P = props["properties"][pid]
@@ -52,18 +63,20 @@ def decide(pid, props, tier, seed, run_unit, known):
 
 
 def finish(pid, P, props, tier, seed, results, known, t0, warnings, scratch_root):
-    only = P.get("obligation_filter")  # optional: restrict which obligations belong to this property
     violations = []
     known_hits = []
     undecided = []
     obligations = []
     for r in results:
         for o in r.get("obligations", []):
-            obligations.append(o)
+            if not owned_elsewhere(props, pid, o["id"]):
+                obligations.append(o)
         for u in r.get("undecided", []):
             undecided.append("%s: %s" % (r["unit"], u))
         for f in r.get("failures", []):
             ob_id = "%s::%s" % (r["unit"], f["label"])
+            if owned_elsewhere(props, pid, ob_id):
+                continue
             k = kf_match(known, pid, ob_id, (f.get("site_text") or "") + " " + (f.get("site") or ""))
             rec = dict(f)
             rec["obligation"] = ob_id
